@@ -4,7 +4,7 @@ import re
 
 from ..core import AnalysisError, norm
 from ..sim import check_reach
-from .common import (check_zero_is_a_value, effects, paths_of, check_writers, arg_by_name, named_call_sites)
+from .common import (dtext, check_zero_is_a_value, effects, paths_of, check_writers, arg_by_name, named_call_sites)
 
 CTRL = 'frontends.tui.controller.Controller'
 MSGQ = 'core.wl.message.Message'
@@ -92,7 +92,7 @@ def run(ctx):
         for e in p.events:
             if is_sep(e):
                 nsep += 1
-                ctx.check('.format(%s)' % GAP in e.text, 'C16.3', 'separator:shows-gap', f_show.loc(e.node), 'the separator shows the gap itself', 'separator is %s' % e.text[:120])
+                ctx.check('.format(%s)' % GAP in (dtext(e.args[0]) if e.args else ''), 'C16.3', 'separator:shows-gap', f_show.loc(e.node), 'the separator shows the gap itself', 'separator is %s' % e.text[:120])
                 ctx.check(sh and p.events.index(e) < sh[0], 'C16.3', 'separator:before-message', f_show.loc(e.node), 'the separator precedes the message line')
     ctx.floor('C16.3', nsep, 1, 'separator path')
     check_writers(ctx, 'C16.3', CTRL, 'last_shown_timestamp', [('Controller.__init__', lambda w: w.fresh), ('Controller._show_message', None),
@@ -117,7 +117,7 @@ def run(ctx):
         for e in p.events:
             if e.kind == 'call' and e.ftext == 'out.show':
                 n4 += 1
-                times = re.findall(r"format\(([^()]*)\)", e.text)
+                times = re.findall(r"format\(([^()]*)\)", dtext(e.args[0]) if e.args else '')
                 ctx.check(times == ['self.timestamp'], 'C16.4', 'show:prints-timestamp', f_mshow.loc(e.node), 'the time column is the message\'s relative timestamp',
                           'the time column formats %s' % times)
     ctx.floor('C16.4', n4, 1, 'output call in Message.show')
